@@ -94,8 +94,8 @@ def run(tier):
     for f in files:
         b = bytes(f["bytes"])
         done = False
-        for hm in re.finditer(rb"stream\r?\n((?:\d+ \d+[ \r\n]+){2,})", b):
-            pairs = list(re.finditer(rb"(\d+) (\d+)[ \r\n]+", hm.group(1)))
+        for hm in re.finditer(rb"stream\r?\n((?:\d+[ \t\x0c\x00]+\d+[ \r\n\t\x0c\x00]+){2,})", b):
+            pairs = list(re.finditer(rb"(\d+)[ \t\x0c\x00]+(\d+)[ \r\n\t\x0c\x00]+", hm.group(1)))
             for i in range(len(pairs)):
                 for j in range(i + 1, len(pairs)):
                     a, c = pairs[i].group(1), pairs[j].group(1)
